@@ -170,3 +170,5 @@ func (v *vfSrv) createModel(name string, extra int, system string) (int, string)
 		Template: vfToolTemplate, System: system, Stream: &stream})
 	return code, strings.TrimSpace(string(body))
 }
+
+func sha256Sum(b []byte) [32]byte { return sha256.Sum256(b) }
